@@ -65,6 +65,8 @@ SUBSAMPLE = {("race", "quick"): 8, ("race", "thorough"): 2, ("asan", "quick"): 8
              ("C18", "race", "quick"): 1, ("C18", "race", "thorough"): 1}
 
 WATCHDOG = {"quick": 900, "thorough": 5400}
+# per-case limit in seconds (a single generated case is milliseconds; C18 configurations and thorough C11 id sweeps are the long ones)
+CASE_LIMIT = {"default": 60, "C18": 600, "C09": 300}
 
 
 def log(*a):
@@ -154,6 +156,7 @@ def run_children(prop, tier, seed, plan, workdir, only=None):
             out = os.path.join(workdir, "%s-%s-%d.json" % (prop, variant, i))
             errf = out + ".stderr"
             cmd = [binp, "run", prop, "-tier", tier, "-seed", str(seed), "-shard", "%d/%d" % (i, n), "-out", out]
+            cmd += ["-case-limit-s", str(CASE_LIMIT.get(prop, CASE_LIMIT["default"]) * (3 if variant != "plain" else 1))]
             if only:
                 cmd += ["-only", only]
             elif variant != "plain":
@@ -224,6 +227,24 @@ def run_children(prop, tier, seed, plan, workdir, only=None):
                 wal = f.read().strip()
         except OSError:
             pass
+        m = re.search(r"^WATCHDOG (\S+) (\d+) ", tail_head(p["errf"]), re.M) if p.get("rc") == 4 else None
+        if m:
+            # isolated replay of that single case with a larger budget; only a reproduced expiry is a verdict
+            fam, idx = m.group(1), int(m.group(2))
+            lim = CASE_LIMIT.get(prop, CASE_LIMIT["default"]) * 2
+            cmd2 = [p["cmd"][0], "run", prop, "-tier", tier, "-seed", str(seed), "-shard", "0/1", "-only", "%s:%d" % (fam, idx),
+                    "-case-limit-s", str(lim), "-out", p["out"] + ".replay"]
+            try:
+                r2 = subprocess.run(cmd2, stdout=subprocess.PIPE, stderr=subprocess.STDOUT, text=True, env=p["env"], cwd=workdir, timeout=lim + 60)
+                rc2, out2 = r2.returncode, r2.stdout
+            except subprocess.TimeoutExpired as e:
+                rc2, out2 = 4, "WATCHDOG (runner timeout) " + str(e)
+            if rc2 == 4:
+                fatals.append({"variant": p["variant"], "shard": p["shard"], "n": p["n"], "rc": "no-return", "wal": "%s %d" % (fam, idx),
+                               "stderr_tail": "case did not return within %ds, reproduced in an isolated replay (%ds)\n%s" % (lim // 2, lim, out2[-4000:])})
+            else:
+                incon.append("case %s/%d exceeded the per-case limit once but returned in an isolated replay (load?)" % (fam, idx))
+            continue
         if p.get("rc") in ("watchdog", "not-started"):
             incon.append("child %s shard %d/%d: %s (last case: %s)" % (p["variant"], p["shard"], p["n"], p["rc"], wal))
         elif p.get("rc") == 2 and "self-check FAILED" in tail:
@@ -233,6 +254,14 @@ def run_children(prop, tier, seed, plan, workdir, only=None):
         else:
             fatals.append({"variant": p["variant"], "shard": p["shard"], "n": p["n"], "rc": p.get("rc"), "wal": wal, "stderr_tail": tail})
     return results, fatals, incon, races
+
+
+def tail_head(path):
+    try:
+        with open(path, errors="replace") as f:
+            return f.read(20000)
+    except OSError:
+        return ""
 
 
 def dedupe_reports(reports):
